@@ -2,9 +2,7 @@
 SPECIFICATION Spec
 CONSTANTS
   Worlds <- WTiny
-  MaxArgs = 1
   MaxTx = 2
-  Families <- FamGov
 VIEW view
 INVARIANTS TypeOK Total AdmittedExecutes LayersInOrder
 PROPERTIES FactsOnlyByExecute PhaseAdvances
